@@ -211,6 +211,16 @@ func (c *Conn) Delivered() int64 {
 	return c.in.delivered
 }
 
+// Peek returns a copy of up to n bytes waiting to be read by this end, without consuming them.
+func (c *Conn) Peek(n int) []byte {
+	c.in.mu.Lock()
+	defer c.in.mu.Unlock()
+	if n > len(c.in.buf) {
+		n = len(c.in.buf)
+	}
+	return append([]byte(nil), c.in.buf[:n]...)
+}
+
 // Buffered is the number of bytes waiting to be read by this end.
 func (c *Conn) Buffered() int {
 	c.in.mu.Lock()
